@@ -500,6 +500,8 @@ def run(F, rep, tier):
     from . import c05
     rep.attempt(c05.rule_r1, F, rep)
     rep.attempt(c05.rule_r1b, F, rep)
+    from . import stdlike
+    rep.attempt(stdlike.rule_lookalikes, F, rep, "C20.R9")
     rep.assume("base64 / UTF-8 / digest / escape-function values, decoder-inverts-encoder, YAML/JSON agreement and "
                "totality inside saphyr-parser are value-level or external and not decided")
     return EXPLANATION
